@@ -17,6 +17,10 @@ pub struct Cfg {
     pub overrides: Vec<(String, u64)>,
     pub keyed: bool,
     pub phase: u64,
+    /// positional rules address their argument from the END of the argument list: the first rule
+    /// with -(number of arguments), i.e. the first argument, the companion with -1
+    #[serde(default)]
+    pub neg_index: bool,
     /// a second rule on the same resource (parameter 1 / key "k2", threshold 1e6: it never rejects)
     /// whose parameter values are the same strings as the first rule's values
     #[serde(default)]
@@ -114,7 +118,7 @@ fn companion_of(cfg: &Cfg, threshold: u64) -> Arc<hotspot::Rule> {
         metric_type: hotspot::MetricType::QPS,
         control_strategy: hotspot::ControlStrategy::Reject,
         // (a positive index and a key are mutually exclusive: a keyed companion has index 0)
-        param_index: if cfg.keyed { 0 } else { 1 },
+        param_index: if cfg.keyed { 0 } else if cfg.neg_index { -1 } else { 1 },
         param_key: if cfg.keyed { "k2".into() } else { String::new() },
         threshold,
         burst_count: cfg.b,
@@ -146,7 +150,7 @@ fn rule_of(cfg: &Cfg, q: u64, overrides: &[(String, u64)]) -> Arc<hotspot::Rule>
         resource: RES.into(),
         metric_type: hotspot::MetricType::QPS,
         control_strategy: hotspot::ControlStrategy::Reject,
-        param_index: 0,
+        param_index: if cfg.neg_index && !cfg.keyed { if cfg.companion { -2 } else { -1 } } else { 0 },
         param_key: if cfg.keyed { "k".into() } else { String::new() },
         threshold: q,
         burst_count: cfg.b,
@@ -370,7 +374,7 @@ pub fn configs(thorough: bool) -> Vec<Cfg> {
                         if !thorough && k % 5 != 0 {
                             continue;
                         }
-                        let base = Cfg { q, b, d, overrides: overrides.clone(), keyed, phase: [0, 1, 499, 999][(k % 4) as usize], companion: false, retuned: 0, script_capacity: None, solo: false };
+                        let base = Cfg { q, b, d, overrides: overrides.clone(), keyed, phase: [0, 1, 499, 999][(k % 4) as usize], neg_index: !keyed && (if thorough { (k / 2) % 2 == 1 } else { (k / 10) % 2 == 1 }), companion: false, retuned: 0, script_capacity: None, solo: false };
                         v.push(base.clone());
                         // variants: a companion rule sharing the value strings, and two-step loads
                         // the companion + two-step variant (0) is given to every second configuration
@@ -390,7 +394,7 @@ pub fn configs(thorough: bool) -> Vec<Cfg> {
     }
     // both rules limiting, every request carrying one parameter only
     for (q, b, d) in [(1u64, 0u64, 1u64), (2, 1, 2), (1, 1, 3)] {
-        v.push(Cfg { q, b, d, overrides: vec![], keyed: true, phase: 0, companion: true, retuned: 0, script_capacity: None, solo: true });
+        v.push(Cfg { q, b, d, overrides: vec![], keyed: true, phase: 0, neg_index: false, companion: true, retuned: 0, script_capacity: None, solo: true });
     }
     // scripted capacity histories: small, just above the default ceiling of 20 000, and larger
     for c in [3usize, 50, 20_001, 25_000] {
@@ -398,7 +402,7 @@ pub fn configs(thorough: bool) -> Vec<Cfg> {
             if keyed && c > 50 {
                 continue;
             }
-            v.push(Cfg { q: 1, b: 0, d: 3, overrides: vec![], keyed, phase: 0, companion: false, retuned: 0, script_capacity: Some(c), solo: false });
+            v.push(Cfg { q: 1, b: 0, d: 3, overrides: vec![], keyed, phase: 0, neg_index: !keyed && c == 50, companion: false, retuned: 0, script_capacity: Some(c), solo: false });
         }
     }
     v
